@@ -72,6 +72,123 @@ pub fn record_temp(seed: u64, thorough: bool, path: &str) -> Value {
     let first = temp_file_name("verif-temp-start");
     let start = parse_count(&first).map(|c| c + 1).unwrap_or(0);
     hooks::start_atomic_log();
+    let mut handles = Vec::new();
+    for t in 0..threads {
+        handles.push(std::thread::spawn(move || {
+            hooks::set_thread_tag(t);
+            let part = format!("part_{}_x{}", t, t * 7);
+            let mut v: Vec<(String, String)> = Vec::with_capacity(calls);
+            for _ in 0..calls { v.push((part.clone(), temp_file_name(&part).to_string_lossy().to_string())); }
+            v
+        }));
+    }
+    let mut results: Vec<Vec<(String, String)>> = handles.into_iter().map(|h| h.join().unwrap()).collect();
+    // the name format around powers of two: move the counter and take a few names on each side
+    hooks::set_thread_tag(threads);
+    let mut extra: Vec<(String, String)> = Vec::new();
+    let take = |extra: &mut Vec<(String, String)>, n: usize| { for _ in 0..n { extra.push(("part_0_x0".to_string(), temp_file_name("part_0_x0").to_string_lossy().to_string())); } };
+    // (the threads above made at most 32 000 calls: the counter is below 2^16 - 3; everything below moves it forward only)
+    hooks::force_store_all((1usize << 16) - 3);
+    take(&mut extra, 6);
+    // names that repeat with a period: from a base value, the same part at base + 2^k for every k
+    let base = (1usize << 17) + 77;
+    hooks::force_store_all(base);
+    take(&mut extra, 3);
+    for k in 18..48u32 {
+        if k == 32 { hooks::force_store_all((1usize << 32) - 3); take(&mut extra, 6); }
+        hooks::force_store_all(base + (1usize << k));
+        take(&mut extra, 3);
+    }
+    // ... and the temporary directory changed while the process runs: A, B, then A again
+    {
+        let orig = std::env::var_os("TMPDIR");
+        let root = std::env::temp_dir();
+        let (a, b) = (root.join("verif-temp-A"), root.join("verif-temp-B"));
+        let _ = std::fs::create_dir_all(&a); let _ = std::fs::create_dir_all(&b);
+        for d in [&a, &b, &a, &b] {
+            std::env::set_var("TMPDIR", d);
+            for _ in 0..4 { extra.push(("part_0_x0".to_string(), temp_file_name("part_0_x0").to_string_lossy().to_string())); }
+        }
+        match orig { Some(v) => std::env::set_var("TMPDIR", v), None => std::env::remove_var("TMPDIR") }
+        let _ = std::fs::remove_dir_all(&a); let _ = std::fs::remove_dir_all(&b);
+    }
+    for shift in [48u32] {
+        hooks::force_store_all((1usize << shift) - 3);
+        for _ in 0..6 { extra.push(("part_0_x0".to_string(), temp_file_name("part_0_x0").to_string_lossy().to_string())); }
+    }
+    results.push(extra);
+    // the other public function that takes a temporary name: serialize::test, with and without removing its file,
+    // alternating with direct calls that use the same name part
+    hooks::set_thread_tag(threads + 1);
+    let mut probe_names: Vec<(String, String)> = Vec::new();
+    let ppart = "part_probe".to_string();
+    for i in 0..8 {
+        let probe = Probe { part: ppart.clone(), seen: Default::default() };
+        let kept = guarded(|| simple_sds::serialize::test(&probe, &ppart, Some(1), i % 2 == 0));
+        if let Ok(Some(p)) = &kept { let _ = std::fs::remove_file(p); }
+        let seen = probe.seen.borrow();
+        // exactly the file being written carries the part (earlier ones were removed)
+        probe_names.push((ppart.clone(), if seen.len() == 1 { std::env::temp_dir().join(&seen[0]).to_string_lossy().to_string() } else { format!("PROBE-FAILED {:?} {:?}", seen, kept.as_ref().err()) }));
+        probe_names.push((ppart.clone(), temp_file_name(&ppart).to_string_lossy().to_string()));
+    }
+    results.push(probe_names);
+    // name parts that a path library may treat specially: dots (extensions), spaces, long parts
+    hooks::set_thread_tag(threads + 2);
+    let mut special: Vec<(String, String)> = Vec::new();
+    let mut parts: Vec<String> = ["part.v2", "archive.tar.gz", "dot.", ".hidden", "a b", "x..y", "p_1_2", "sub-dir/", "sub//file", "sub/.", "sub/file", "./rel"].iter().map(|s| s.to_string()).collect();
+    for n in [100usize, 200, 240, 245, 250, 255, 256, 300] { parts.push(format!("L{}{}", n, "z".repeat(n - 4))); }
+    for part in parts.iter() { for _ in 0..3 { special.push((part.clone(), temp_file_name(part).to_string_lossy().to_string())); } }
+    results.push(special);
+    // stale files: files that already exist under the names the next calls would produce (a recycled process id);
+    // the names handed out must stay pairwise different whatever the function does about them
+    hooks::set_thread_tag(threads + 3);
+    let mut stale: Vec<(String, String)> = Vec::new();
+    let spart = "part_stale".to_string();
+    let first = temp_file_name(&spart);
+    stale.push((spart.clone(), first.to_string_lossy().to_string()));
+    let mut created: Vec<std::path::PathBuf> = Vec::new();
+    if let Some(c) = parse_count(&first) {
+        let text = first.to_string_lossy().to_string();
+        let prefix = &text[..text.len() - c.to_string().len()];
+        for d in [1usize, 3, 4, 6, 9] { let p = std::path::PathBuf::from(format!("{}{}", prefix, c + d)); if std::fs::write(&p, b"stale").is_ok() { created.push(p); } }
+    }
+    for _ in 0..12 { stale.push((spart.clone(), temp_file_name(&spart).to_string_lossy().to_string())); }
+    for p in created { let _ = std::fs::remove_file(p); }
+    results.push(stale);
+    let log = hooks::stop_atomic_log();
+    let mut out = TraceOut::new();
+    out.push(json!({"e": "start", "start": start, "threads": threads, "calls": calls}));
+    let small = |x: usize| if (x as u64) <= TLC_MAX { json!(x) } else { json!(-9) };
+    // after the counter has been moved beyond 2^31 the values no longer fit TLC: those events are logged by offset
+    let mut base = 0usize;
+    for e in log.iter() {
+        if e.op == "jump" { base = if (e.new as u64) > TLC_MAX / 2 { e.new - 1000 } else { 0 }; out.push(json!({"e": "atomic", "thread": e.thread, "op": "jump", "old": 0, "new": small(e.new - base)})); continue; }
+        out.push(json!({"e": "atomic", "thread": e.thread, "op": e.op, "old": small(e.old - base), "new": small(e.new.wrapping_sub(base))}));
+    }
+    let pid = std::process::id().to_string();
+    let mut all = std::collections::HashSet::new();
+    let mut dup = 0;
+    for (t, v) in results.iter().enumerate() {
+        for (part, p) in v.iter() {
+            // a name part may contain path separators: the part is looked for in the whole path, and the whole path below the
+            // temporary directory is what must be unique
+            let tmp = std::env::temp_dir().to_string_lossy().to_string();
+            // two paths are the same path when their components are (Path equality: repeated separators and `.` components do not count)
+            let norm: String = std::path::Path::new(p).components().map(|c| c.as_os_str().to_string_lossy().to_string()).collect::<Vec<String>>().join("/").replace("//", "/");
+            let name = norm.strip_prefix(tmp.as_str()).map(|s| s.trim_start_matches('/').to_string()).unwrap_or_else(|| norm.clone());
+            if !all.insert(norm.clone()) { dup += 1; }
+            out.push(json!({"e": "name", "thread": t, "path": name, "has_part": p.contains(part.as_str()), "has_pid": name.contains(&pid)}));
+        }
+    }
+    out.write(path);
+    json!({"threads": threads, "calls_per_thread": calls, "queries": threads * calls, "duplicates_seen_by_harness": dup, "events": out.lines.len(), "sample": serde_json::from_str::<Value>(&out.lines[out.lines.len() - 1]).unwrap()})
+}
+
+/// A fresh process (the counter is small): adversarial requests and name parts that are different texts for the same path.
+/// Only the returned paths are logged (TraceTemp in its names-only mode: Unique and the name part).
+pub fn record_temp_adv(_seed: u64, _thorough: bool, path: &str) -> Value {
+    let threads = 0usize;
+    let mut results: Vec<Vec<(String, String)>> = Vec::new();
     // names taken early for name parts that end in what the function itself may append (the process id, separators, digits):
     // material for the adversarial requests below
     hooks::set_thread_tag(threads + 4);
@@ -115,88 +232,20 @@ pub fn record_temp(seed: u64, thorough: bool, path: &str) -> Value {
             at = c + 1;
         }
     }
-    let mut handles = Vec::new();
-    for t in 0..threads {
-        handles.push(std::thread::spawn(move || {
-            hooks::set_thread_tag(t);
-            let part = format!("part_{}_x{}", t, t * 7);
-            let mut v: Vec<(String, String)> = Vec::with_capacity(calls);
-            for _ in 0..calls { v.push((part.clone(), temp_file_name(&part).to_string_lossy().to_string())); }
-            v
-        }));
-    }
-    let mut results: Vec<Vec<(String, String)>> = handles.into_iter().map(|h| h.join().unwrap()).collect();
+    results.push(early);
     // name parts that are different texts for the same path: the paths handed out are compared as paths
     hooks::set_thread_tag(threads + 5);
     let mut same: Vec<(String, String)> = Vec::new();
     for part in ["norm", "./norm", "././norm", "nrm//z", "nrm/z", "nrm/./z"] { for _ in 0..3 { same.push((part.to_string(), temp_file_name(part).to_string_lossy().to_string())); } }
-    // the name format around powers of two: move the counter and take a few names on each side
-    hooks::set_thread_tag(threads);
-    let mut extra: Vec<(String, String)> = Vec::new();
-    for shift in [16u32, 32, 48] {
-        hooks::force_store_all((1usize << shift) - 3);
-        for _ in 0..6 { extra.push(("part_0_x0".to_string(), temp_file_name("part_0_x0").to_string_lossy().to_string())); }
-    }
-    results.push(extra);
-    // the other public function that takes a temporary name: serialize::test, with and without removing its file,
-    // alternating with direct calls that use the same name part
-    hooks::set_thread_tag(threads + 1);
-    let mut probe_names: Vec<(String, String)> = Vec::new();
-    let ppart = "part_probe".to_string();
-    for i in 0..8 {
-        let probe = Probe { part: ppart.clone(), seen: Default::default() };
-        let kept = guarded(|| simple_sds::serialize::test(&probe, &ppart, Some(1), i % 2 == 0));
-        if let Ok(Some(p)) = &kept { let _ = std::fs::remove_file(p); }
-        let seen = probe.seen.borrow();
-        // exactly the file being written carries the part (earlier ones were removed)
-        probe_names.push((ppart.clone(), if seen.len() == 1 { std::env::temp_dir().join(&seen[0]).to_string_lossy().to_string() } else { format!("PROBE-FAILED {:?} {:?}", seen, kept.as_ref().err()) }));
-        probe_names.push((ppart.clone(), temp_file_name(&ppart).to_string_lossy().to_string()));
-    }
-    results.push(probe_names);
-    // name parts that a path library may treat specially: dots (extensions), spaces, long parts
-    hooks::set_thread_tag(threads + 2);
-    let mut special: Vec<(String, String)> = Vec::new();
-    let mut parts: Vec<String> = ["part.v2", "archive.tar.gz", "dot.", ".hidden", "a b", "x..y", "p_1_2", "sub-dir/", "sub//file", "sub/.", "sub/file", "./rel"].iter().map(|s| s.to_string()).collect();
-    for n in [100usize, 200, 240, 245, 250, 255, 256, 300] { parts.push(format!("L{}{}", n, "z".repeat(n - 4))); }
-    for part in parts.iter() { for _ in 0..3 { special.push((part.clone(), temp_file_name(part).to_string_lossy().to_string())); } }
-    results.push(special);
-    // stale files: files that already exist under the names the next calls would produce (a recycled process id);
-    // the names handed out must stay pairwise different whatever the function does about them
-    hooks::set_thread_tag(threads + 3);
-    let mut stale: Vec<(String, String)> = Vec::new();
-    let spart = "part_stale".to_string();
-    let first = temp_file_name(&spart);
-    stale.push((spart.clone(), first.to_string_lossy().to_string()));
-    let mut created: Vec<std::path::PathBuf> = Vec::new();
-    if let Some(c) = parse_count(&first) {
-        let text = first.to_string_lossy().to_string();
-        let prefix = &text[..text.len() - c.to_string().len()];
-        for d in [1usize, 3, 4, 6, 9] { let p = std::path::PathBuf::from(format!("{}{}", prefix, c + d)); if std::fs::write(&p, b"stale").is_ok() { created.push(p); } }
-    }
-    for _ in 0..12 { stale.push((spart.clone(), temp_file_name(&spart).to_string_lossy().to_string())); }
-    for p in created { let _ = std::fs::remove_file(p); }
-    results.push(stale);
-    results.push(early);       // thread tag threads + 4
-    results.push(same);        // thread tag threads + 5
-    let log = hooks::stop_atomic_log();
+    results.push(same);
     let mut out = TraceOut::new();
-    out.push(json!({"e": "start", "start": start, "threads": threads, "calls": calls}));
-    let small = |x: usize| if (x as u64) <= TLC_MAX { json!(x) } else { json!(-9) };
-    // after the counter has been moved beyond 2^31 the values no longer fit TLC: those events are logged by offset
-    let mut base = 0usize;
-    for e in log.iter() {
-        if e.op == "jump" { base = if (e.new as u64) > TLC_MAX / 2 { e.new - 1000 } else { 0 }; out.push(json!({"e": "atomic", "thread": e.thread, "op": "jump", "old": 0, "new": small(e.new - base)})); continue; }
-        out.push(json!({"e": "atomic", "thread": e.thread, "op": e.op, "old": small(e.old - base), "new": small(e.new.wrapping_sub(base))}));
-    }
+    out.push(json!({"e": "start", "start": 0, "threads": 1, "calls": 0}));
     let pid = std::process::id().to_string();
     let mut all = std::collections::HashSet::new();
     let mut dup = 0;
+    let tmp = std::env::temp_dir().to_string_lossy().to_string();
     for (t, v) in results.iter().enumerate() {
         for (part, p) in v.iter() {
-            // a name part may contain path separators: the part is looked for in the whole path, and the whole path below the
-            // temporary directory is what must be unique
-            let tmp = std::env::temp_dir().to_string_lossy().to_string();
-            // two paths are the same path when their components are (Path equality: repeated separators and `.` components do not count)
             let norm: String = std::path::Path::new(p).components().map(|c| c.as_os_str().to_string_lossy().to_string()).collect::<Vec<String>>().join("/").replace("//", "/");
             let name = norm.strip_prefix(tmp.as_str()).map(|s| s.trim_start_matches('/').to_string()).unwrap_or_else(|| norm.clone());
             if !all.insert(norm.clone()) { dup += 1; }
@@ -204,7 +253,7 @@ pub fn record_temp(seed: u64, thorough: bool, path: &str) -> Value {
         }
     }
     out.write(path);
-    json!({"threads": threads, "calls_per_thread": calls, "queries": threads * calls, "duplicates_seen_by_harness": dup, "events": out.lines.len(), "sample": serde_json::from_str::<Value>(&out.lines[out.lines.len() - 1]).unwrap()})
+    json!({"queries": all.len() + dup, "duplicates_seen_by_harness": dup, "events": out.lines.len(), "sample": serde_json::from_str::<Value>(&out.lines[out.lines.len() - 1]).unwrap()})
 }
 
 /// Replays a schedule found by TLC: `sched` lists which thread performs its next primitive (a thread's
